@@ -14,9 +14,16 @@ import Cx.Model.MetaFind
         flags  14 digits `LPCMVDRENAFYSG`: L = longest, P = hasPrefilter, C = prefilter.IsComplete(), M = prefilter implements
                FindMatch, V = prefilterPartialCoverage, D = dfa != nil, R = reverseDFA != nil, E = canMatchEmpty,
                N = boundedBacktracker != nil, A = asciiBoundedBacktracker != nil, F = anchoredFirstBytes != nil,
-               Y = nfa.IsAlwaysAnchored(), S = isStartAnchored, G = SearchReverse gives up (-1) always
+               Y = nfa.IsAlwaysAnchored(), S = isStartAnchored (read by no modelled function since fffbd3b; the digit stays),
+               G = SearchReverse gives up (-1) always.
+               The fallbacks of the UseBoundedBacktracker functions are `!L && D && R` (ecab302): give the engine's real
+               flags; `D = 0` for (bt, L = 1) — the workaround of callers written before the model followed that fix —
+               gives the same answers.
         nums   `literalLen,nfaStateCount,asciiCheckLimit,btLimit,asciiLimit,btMax,asciiMax`
-               (CanHandle(k) = k <= btLimit / asciiLimit; MaxInputSize() = btMax / asciiMax)
+               (CanHandle(k) = k <= btLimit / asciiLimit; MaxInputSize() = btMax / asciiMax).
+               `asciiCheckLimit` (third field) is IGNORED: since fffbd3b the ASCII check of the UseBoundedBacktracker functions
+               reads the whole remaining input, there is no limit.  The field keeps its position for protocol compatibility
+               (any number is accepted: 4096, or something huge as older callers send).
         at     one start offset, or `*` for every offset 0..len (answers separated by `;`); ignored by nfa|dfa|both|bt|find.*
         mt     the match relation on this haystack: `s.e,s.e,…` (or `-`): what the reverse DFA searches
         pike   the Pike VM's span from every offset 0..len: `s.e` or `x`, comma separated (len+1 entries)
@@ -101,8 +108,8 @@ def parseReq (flags nums hay mt pike fwd anch im find pf pfm bt sl asl fb : Stri
   let asls ← parseSlices asl
   let fbf : Nat → Bool ← (if fb = "*" then some fun _ => true else (parseHex fb).map fun bs b => bs.contains b)
   match ns with
-  | [ll, sc, acl, bl, al, bm, am] =>
-    let P := { P0 with literalLen := ll, nfaStateCount := sc, asciiCheckLimit := acl }
+  | [ll, sc, _asciiCheckLimit, bl, al, bm, am] =>        -- third field: ignored (kept for protocol compatibility)
+    let P := { P0 with literalLen := ll, nfaStateCount := sc }
     let n := h.size + 1
     some { P := P, h := h,
            T := { mt := mkTab n mtp, pike := pkf, fwd := fwdf, anch := anchf, im := imf, find := findf, pf := pff, pfm := pfmf,
